@@ -55,6 +55,8 @@ def okey(harness, o):
     # obligations generated per data member by one schema ("no container member is used before it is
     # reset") are one obligation quantified over the members: a new member is not a new obligation
     fn = re.sub(r"^E_(use|reset)__\w+$", r"E_\1__*", o.get("function", ""))
+    if fn != o.get("function", ""):
+        harness = "*"      # ... and over the services
     return "%s|%s|%s" % (harness, fn, o.get("class", ""))
 
 
